@@ -105,6 +105,9 @@ let refusal (impl_step : string) : int =
   if String.length impl_step >= 5 && String.sub impl_step 0 5 = "panic" then 2
   else if String.length impl_step >= 3 && String.sub impl_step 0 3 = "err" then 1 else 0
 
+(* the model store before the step being parsed (Hstack/Vstack choose the axis from the rank) *)
+let cur_model : z store ref = ref (empty_store : z store)
+
 let parse_op (o : string) (impl_step : string) : zop =
   let f = fields o in
   let nat i = nat_of_int (int_of_string f.(i)) in
@@ -127,7 +130,16 @@ let parse_op (o : string) (impl_step : string) : zop =
   | "inner" -> ZInner (nat 1, nat 2, z_of_int (refusal impl_step))
   | "trace" -> ZTrace (nat 1, z_of_int (refusal impl_step))
   | "stack" -> ZStack (nat 1, z_of_int (int_of_string f.(2)), List.map (fun i -> nat_of_int i) (ints f.(3)))
-  | "concat" -> ZConcat (nat 1, z_of_int (int_of_string f.(2)), List.map (fun i -> nat_of_int i) (ints f.(3)))
+  | "concat" ->
+    (* forms: "" = Dense.Concat, api = tensor.Concat, h = Hstack (axis 1, or 0 for rank 1),
+       v = Vstack (axis 0); the generator uses h for rank >= 1 and v for rank >= 2 only *)
+    let form = if Array.length f > 4 then f.(4) else "" in
+    let dims = (match get_t !cur_model (nat 1) with Some d -> List.length d.d_ap.shp | None -> 0) in
+    let axis = (match form with
+        | "h" -> if dims = 1 then 0 else 1
+        | "v" -> 0
+        | _ -> int_of_string f.(2)) in
+    ZConcat (nat 1, z_of_int axis, List.map (fun i -> nat_of_int i) (ints f.(3)))
   | "repeat" -> ZRepeat (nat 1, z_of_int (int_of_string f.(2)), zs f.(3))
   | "arg" ->
     let code = (match f.(1) with "max" -> 0 | "min" -> 1 | o -> failwith o) in
@@ -257,6 +269,7 @@ let run_prog_gen (kept : bool) dt (prog : string) (impl : string) : outcome =
   Array.iteri (fun i o ->
       if not !stop then begin
         let istep = if i < Array.length isteps then isteps.(i) else "" in
+        cur_model := !m;
         let op = parse_op o istep in
         let before = !m in
         let (m', r) = zstep_model !m op in
